@@ -65,6 +65,8 @@ impl<In: Send + 'static> NetworkReceiver<In> {
         message: Result<NetworkMessage<In>, E>,
     ) -> Result<NetworkMessage<In>, E> {
         message.map(|message| {
+            #[cfg(renoir_verif)]
+            crate::verif::on_recv(&self.receiver_endpoint, &message, "recv");
             get_profiler().items_in(
                 message.sender,
                 self.receiver_endpoint.coord,
@@ -98,6 +100,9 @@ impl<In: Send + 'static> NetworkReceiver<In> {
         &self,
         other: &NetworkReceiver<In2>,
     ) -> SelectResult<NetworkMessage<In>, NetworkMessage<In2>> {
+        #[cfg(renoir_verif)]
+        return self.verif_select(other, self.receiver.select(&other.receiver));
+        #[cfg(not(renoir_verif))]
         self.receiver.select(&other.receiver)
     }
 
@@ -107,7 +112,27 @@ impl<In: Send + 'static> NetworkReceiver<In> {
         other: &NetworkReceiver<In2>,
         timeout: Duration,
     ) -> Result<SelectResult<NetworkMessage<In>, NetworkMessage<In2>>, RecvTimeoutError> {
+        #[cfg(renoir_verif)]
+        return self
+            .receiver
+            .select_timeout(&other.receiver, timeout)
+            .map(|r| self.verif_select(other, r));
+        #[cfg(not(renoir_verif))]
         self.receiver.select_timeout(&other.receiver, timeout)
+    }
+
+    #[cfg(renoir_verif)]
+    fn verif_select<In2: ExchangeData>(
+        &self,
+        other: &NetworkReceiver<In2>,
+        r: SelectResult<NetworkMessage<In>, NetworkMessage<In2>>,
+    ) -> SelectResult<NetworkMessage<In>, NetworkMessage<In2>> {
+        match &r {
+            SelectResult::A(Ok(m)) => crate::verif::on_recv(&self.receiver_endpoint, m, "select"),
+            SelectResult::B(Ok(m)) => crate::verif::on_recv(&other.receiver_endpoint, m, "select"),
+            _ => {}
+        }
+        r
     }
 }
 
@@ -134,6 +159,8 @@ enum SenderInner<Out: Send + 'static> {
 
 impl<Out: ExchangeData> NetworkSender<Out> {
     pub fn send(&self, message: NetworkMessage<Out>) -> Result<(), NetworkSendError> {
+        #[cfg(renoir_verif)]
+        crate::verif::on_send(&self.receiver_endpoint, &message);
         get_profiler().items_out(
             message.sender,
             self.receiver_endpoint.coord,
